@@ -6,6 +6,7 @@ import (
 	"fmt"
 	"math/rand"
 	"os"
+	"runtime"
 	"runtime/debug"
 	"strings"
 	"sync"
@@ -243,6 +244,22 @@ func (rn *runner) runOnce(st *site) (res siteResult, lr *learned, fatal error) {
 	}
 	report := func(sig, what string) {
 		class, op := splitSig(sig)
+		if class == "hang" {
+			// a watchdog firing is evidence of a hang only together with goroutines that wait inside
+			// perkeep (lock / channel / gate); otherwise the call was merely slow: inconclusive
+			d := blockedInPerkeep()
+			if d == "" {
+				res.hung = true
+				res.counts["watchdog_without_blocked_perkeep_goroutine"]++
+				sid := -1
+				if st != nil {
+					sid = st.Idx
+				}
+				emit(record{T: "inconcl", Backend: rn.def.Name, Site: sid, What: fmt.Sprintf("%s (phase %s, fault %s): %s; no goroutine is waiting inside perkeep frames: the call was slow, not shown to hang", sig, phase, cause, what)})
+				return
+			}
+			what += "\ngoroutines waiting inside perkeep:\n" + d
+		}
 		r := rep{class, op, what}
 		if phase == "faulted" {
 			buf = append(buf, r)
@@ -538,6 +555,44 @@ func (rn *runner) runOnce(st *site) (res siteResult, lr *learned, fatal error) {
 	return res, lr, nil
 }
 
+// waitStates are the goroutine states of a goroutine that waits for another one.
+var waitStates = []string{"semacquire", "chan receive", "chan send", "select", "sync.Mutex.Lock", "sync.RWMutex", "sync.Cond.Wait", "sync.WaitGroup.Wait"}
+
+// blockedInPerkeep returns (at most 4) goroutines that are in a wait state with perkeep
+// frames on their stack, "" if there are none.
+func blockedInPerkeep() string {
+	buf := make([]byte, 8<<20)
+	buf = buf[:runtime.Stack(buf, true)]
+	var keep []string
+	for _, g := range strings.Split(string(buf), "\n\n") {
+		if !strings.Contains(g, "perkeep.org/pkg/") {
+			continue
+		}
+		head := g
+		if i := strings.IndexByte(g, '\n'); i > 0 {
+			head = g[:i]
+		}
+		waiting := false
+		for _, w := range waitStates {
+			if strings.Contains(head, "["+w) {
+				waiting = true
+			}
+		}
+		if !waiting {
+			continue
+		}
+		lines := strings.Split(g, "\n")
+		if len(lines) > 17 {
+			lines = lines[:17]
+		}
+		keep = append(keep, strings.Join(lines, "\n"))
+		if len(keep) >= 4 {
+			break
+		}
+	}
+	return strings.Join(keep, "\n\n")
+}
+
 // sites enumerates every fault placement of the history, in a deterministic order:
 // every (op, lower call) with mode error; write calls and enumerations also with
 // error-after-effect; enumerations, scans and file writes also with truncate; then seeded bursts.
@@ -550,8 +605,24 @@ func (rn *runner) sites(rng *rand.Rand, nBursts int) []*site {
 		}
 		out = append(out, s)
 	}
-	local := rn.def.Kind != "sto"
+	// opSkipped: in the quick tier the SQL-backed variants only get the sites of operations that
+	// write or scan below (the ones that can own the key/value store's batch / iterator gate);
+	// their pure read operations are enumerated by the memory-backed variant of the same backend
+	opSkipped := func(i int) bool {
+		if rn.def.KV == "" || tierThorough() {
+			return false
+		}
+		for _, cl := range rn.learn.Calls[i] {
+			if cl.Write || cl.Op == "EnumerateBlobs" || cl.Op == "Find" {
+				return false
+			}
+		}
+		return true
+	}
 	for i, n := range rn.learn.N {
+		if opSkipped(i) {
+			continue
+		}
 		for j := int64(0); j < n; j++ {
 			add(&site{Op: i, Faults: []faultSpec{{Off: j, Mode: inject.Error}}})
 			var cl inject.Call
@@ -561,9 +632,13 @@ func (rn *runner) sites(rng *rand.Rand, nBursts int) []*site {
 			if cl.Write || cl.Op == "EnumerateBlobs" {
 				add(&site{Op: i, Faults: []faultSpec{{Off: j, Mode: inject.ErrorAfterEffect}}})
 			}
-			if local {
-				switch cl.Op {
-				case "EnumerateBlobs", "Find", "ReadDirNames", "file.Write", "file.Read":
+			// partial effect, then the failure: scans and listings that stop half way, short file
+			// reads/writes, fetched bodies that fail half way, batched stats/removes that do half
+			switch cl.Op {
+			case "EnumerateBlobs", "Find", "ReadDirNames", "file.Write", "file.Read", "Fetch", "SubFetch":
+				add(&site{Op: i, Faults: []faultSpec{{Off: j, Mode: Truncate}}})
+			case "StatBlobs", "RemoveBlobs":
+				if !strings.HasPrefix(cl.Arg, "1 refs") && strings.HasSuffix(cl.Arg, " refs") {
 					add(&site{Op: i, Faults: []faultSpec{{Off: j, Mode: Truncate}}})
 				}
 			}
@@ -571,7 +646,7 @@ func (rn *runner) sites(rng *rand.Rand, nBursts int) []*site {
 	}
 	var withCalls []int
 	for i, n := range rn.learn.N {
-		if n > 0 {
+		if n > 0 && !opSkipped(i) {
 			withCalls = append(withCalls, i)
 		}
 	}
